@@ -201,7 +201,15 @@ def history(dag, trees, deco) -> Hist:
 
     h.commits = [None] * len(dag)
     for i, ps in enumerate(dag):
-        h.commits[i] = commit(a["roots"][trees[i]], [h.commits[p] for p in ps], 100 * i, b"c%d\n" % i)
+        root = a["roots"][trees[i]]
+        if trees[i] == 2 and i >= 1:
+            # the gitlink of tree 2 names a commit of THIS repository (a branch mounted as a submodule
+            # of itself): the previous commit in the numbering.  Still never followed for reachability.
+            t2 = Tree()
+            for name, mode, oid in h.objs[root].iteritems():
+                t2.add(name, mode, h.commits[i - 1] if mode == 0o160000 else oid)
+            root = extra(t2, h.edges[root])
+        h.commits[i] = commit(root, [h.commits[p] for p in ps], 100 * i, b"c%d\n" % i)
     if len(set(h.commits)) != len(dag):
         raise HarnessError("commit ids collide")
     n = len(dag)
@@ -576,6 +584,12 @@ def _desc(h, D, fam, rtag, wants, mode, opts):
         ",".join(w.decode().split("/", 2)[-1] for w in wants), mode, dict(opts) if opts else "")
 
 
+def _pre_name(fam):
+    """Ref under which the earlier shallow fetch left its tip: a local branch (so it is offered as
+    a have, as after `clone --depth`) in family h, a remote-tracking ref in family r."""
+    return b"refs/heads/pre" if fam == "h" else b"refs/remotes/x/pre"
+
+
 def _xfer_name(w):
     """Name under which the receiver files a fetched ref."""
     if w.startswith(b"refs/tags/"):
@@ -617,7 +631,7 @@ def case_inproc(acc: Acc, dag, trees, deco, D, fam, rtag, wants, mode, opts=()):
                 except Exception as e:
                     acc.outcome("%s:pre-step-error:%s" % (site, type(e).__name__))
                     return
-                repo.refs[_xfer_name(pre[0])] = h.refs[pre[0]]
+                repo.refs[_pre_name(fam)] = h.refs[pre[0]]
                 before = store_ids(repo)
                 shallow_before = frozenset(repo.get_shallow())
             _tee_add_pack_data(repo.object_store, sink)
@@ -642,7 +656,7 @@ def case_inproc(acc: Acc, dag, trees, deco, D, fam, rtag, wants, mode, opts=()):
                 except Exception as e:
                     acc.outcome("%s:pre-step-error:%s" % (site, type(e).__name__))
                     return
-                repo.refs[_xfer_name(pre[0])] = h.refs[pre[0]]
+                repo.refs[_pre_name(fam)] = h.refs[pre[0]]
                 repo.close()
                 repo = Repo(rdir)
                 before = store_ids(repo)
@@ -1089,7 +1103,7 @@ def _case_proto(acc, h, D, fam, rtag, wants, transport, direction, o, site, desc
                             _net_model(c0, "lazy", srv)
                         c0.fetch(path, target, determine_wants=lambda refs, depth=None: [h.refs[pre[0]]], depth=pre[1],
                                  protocol_version=o.get("pv"))
-                        target.refs[_xfer_name(pre[0])] = h.refs[pre[0]]
+                        target.refs[_pre_name(fam)] = h.refs[pre[0]]
                         before = store_ids(target)
                         shallow_before = frozenset(target.get_shallow())
                         if srv is not None:
@@ -1131,7 +1145,7 @@ def _case_proto(acc, h, D, fam, rtag, wants, transport, direction, o, site, desc
                 if direction == "fetch":
                     if pre:
                         git(cfg + ["fetch", "-q", "--no-tags", "--depth=%d" % pre[1], url,
-                                   (pre[0] + b":" + _xfer_name(pre[0])).decode()], cwd=rdir, timeout=CASE_TIMEOUT)
+                                   (pre[0] + b":" + _pre_name(fam)).decode()], cwd=rdir, timeout=CASE_TIMEOUT)
                         srv.wait_idle()
                         srv.wire.reset()
                         r0 = Repo(rdir)
@@ -1317,9 +1331,9 @@ def O(**kw):
     return tuple(sorted(kw.items()))
 
 
-def B(kind, what, rows, fams=("h",), rtag=False, maxwants=3, special=None, alien=False):
+def B(kind, what, rows, fams=("h",), rtag=False, maxwants=3, special=None, alien=False, only_empty=False):
     return dict(kind=kind, what=what, rows=tuple(rows), fams=tuple(fams), rtag=rtag, maxwants=maxwants, special=special,
-                alien=alien)
+                alien=alien, only_empty=only_empty)
 
 
 def block_cases(h, b):
@@ -1344,6 +1358,8 @@ def block_cases(h, b):
     if b["special"] == "twostep":
         # an earlier depth-limited fetch of ONE ref, then the enumerated fetch: rows carry (d1, depth)
         for D, fam, rtag in receiver_states(h, b["fams"], False, False):
+            if b["only_empty"] and D:
+                continue
             for first in sorted(h.refs):
                 for wants in W:
                     for row in b["rows"]:
@@ -1426,7 +1442,7 @@ def families(quick):
                      "receiver with a commit of its own",
                      histories(small, [R0], ("none",)),
                      [twostep("mem-fetch", (None, 1, 2, 3)),
-                      twostep("local-fetch", (None, 2), storage="packed"),
+                      twostep("local-fetch", (None, 2, 3), storage="packed"),
                       mem((None,), False, 2, alien=True),
                       B("inproc", "local-fetch", [P], maxwants=1, alien=True),
                       B("inproc", "local-push", [P], maxwants=2, alien=True)]))
@@ -1473,9 +1489,9 @@ def proto_families(quick):
     def PB(transport, direction, rows, **kw):
         return B("proto", (transport, direction), rows, **kw)
 
-    def twostep(tr, d2s, **kw):
+    def twostep(tr, d2s, only_empty=False, **kw):
         return PB(tr, "fetch", [o(d1=d1, **({"depth": d2} if d2 else {}), **kw) for d1 in ((1,) if quick else (1, 2)) for d2 in d2s],
-                  maxwants=1, special="twostep")
+                  maxwants=1, special="twostep", only_empty=only_empty)
 
     tagdecos = DECOS[1:]
     PA = histories(small_dags(3), [R0], ("none",))
@@ -1542,6 +1558,10 @@ def proto_families(quick):
     fams.append(("cgit-srv N: 12 named 4-commit shapes, no tags", PC, [
         PB(tr, "fetch", [o(pv=2), o(pv=0, net="lazy", ack="multi")] if not quick else [o(pv=2)], maxwants=w_named),
         PB(tr, "push", [o()], maxwants=w_named),
+        # a shallow clone (nothing else) doing a plain / deepening fetch from C git: what the client
+        # claims to have below its boundary decides what git's thin pack leaves out
+        twostep(tr, (None,) if quick else (None, 2), only_empty=quick, pv=2),
+        twostep(tr, (None,), only_empty=quick, pv=0, net="lazy"),
     ]))
     # ---- C git client -> dulwich servers: server-side narrowing of multi_ack / no-done; --no-tags; depth
     for tr in ("cgit-tcp", "cgit-http"):
@@ -1628,8 +1648,8 @@ def run(ctx):
                 tasks.append(("cases", spec, cur))
         bounds[label] = {"histories": len(hist), "cases": per,
                          "blocks": ["%s refs-under=%s peer-variants=%s wants<=%d%s rows=%s" % (
-                             _block_name(b), "+".join(b["fams"]), "plain" + ("+tag" if b["rtag"] else "") +
-                             ("+own-commit" if b["alien"] else ""), b["maxwants"],
+                             _block_name(b), "+".join(b["fams"]), ("empty-peer-only" if b["only_empty"] else "plain") +
+                             ("+tag" if b["rtag"] else "") + ("+own-commit" if b["alien"] else ""), b["maxwants"],
                              " [%s]" % b["special"] if b["special"] else "", [dict(r) for r in b["rows"]]) for b in blocks]}
         for k, v in per.items():
             declared[k] = declared.get(k, 0) + v
